@@ -88,6 +88,21 @@ def _tx_events(args):
     return ev
 
 
+def _corrupt(ev, rnd):
+    """binding control: one observed position answer shifted by one"""
+    if ev[0] == "tx":
+        slots = [(k, i) for k in range(4, 11) for i, o in enumerate(ev[k]) if o[0] == "v"]
+        if not slots:
+            return None
+        k, i = rnd.choice(slots)
+        ev[k][i] = ["v", ev[k][i][1] + 1]
+        return ev
+    if ev[0] == "m1" and ev[5][0] == "v":
+        ev[5] = ["v", ev[5][1] + 1]
+        return ev
+    return None
+
+
 def run(chk):
     quick = chk.quick
     rnd = random.Random(chk.seed * 49979687 + 6)
@@ -111,7 +126,7 @@ def run(chk):
     parts = pmap(_tx_events, [(items[i::nsh], G + 1, chk.seed * 733 + i) for i in range(nsh)])
     evs = [e for p in parts for e in p]
     evs += suite_events(chk, "C06Trace")  # leg S: the repository's own tests, traced passively
-    chk.validate("C06Trace", evs, shard=600, label="tx")
+    chk.validate("C06Trace", evs, shard=600, label="tx", corrupt=_corrupt)
     chk.exhaustive = not quick
     chk.nontrivial = len(items)
     chk.extra["constants"] = {"G": G, "K": 3, "transcripts_in_space": total, "transcripts_driven": len(items),
